@@ -662,8 +662,8 @@ class Sym:
             bound[p] = ("ph", p)
         sub = Sym(self.prog, target, tcls or target.cls, self.inline, self.stack)
         v = sub.function_value(bound, depth + 1)
-        if v[0] == "opaque" or contains(v, lambda x: isinstance(x, tuple) and len(x) == 3 and x[0] == "loop"):
-            return None
+        if v[0] in ("opaque", "loop", "mutated"):
+            return None            # the helper's result is not understood as a whole (parts may be opaque atoms)
         if size(v) > INLINE_MAX_RESULT:
             return None
         if self_value is not None:
